@@ -95,7 +95,7 @@ class ResolutionContext:
         self._argument_values = (
             {}
         )  # type: Dict[Tuple[Field, ast.Field], Dict[str, Any]]
-        self._resolver_cache = {}  # type: Dict[Resolver, Resolver]
+        self._resolver_cache = {}  # type: Dict[int, Resolver]
 
     def add_error(
         self,
